@@ -545,8 +545,12 @@ class relativedelta(object):
                 self.microsecond == other.microsecond)
 
     def __hash__(self):
+        # __eq__ treats a weekday's n of None, 0 and 1 as equivalent
+        weekday = self.weekday
+        if weekday is not None:
+            weekday = (weekday.weekday, weekday.n or 1)
         return hash((
-            self.weekday,
+            weekday,
             self.years,
             self.months,
             self.days,
